@@ -263,9 +263,8 @@ Definition template (o : op) : tmpl op :=
       simple [TAcq LIcmp6 MW; TRd FI6HuntList; TRd FI6Closed; TRd FI6CloseChan; TWr FI6CloseChan; TWake CI6Close;
               TRel LIcmp6;   (* (repaired) the wake-up swap runs under the handler lock and only while not closed *)
               TRd FI6Repeat; TWr FI6Repeat;
-              TAcq LIcmp6 MW; TRd FI6Routers; TWr FI6Routers; TWr FI6Router; TRel LIcmp6;
-              (* icmp6.go: the Debug log line after Unlock reads router.Options (found by the AST pass) *)
-              TRd FI6Routers]
+              TAcq LIcmp6 MW; TRd FI6Routers; TWr FI6Routers; TWr FI6Router; TRel LIcmp6]
+              (* (the Debug log line after Unlock no longer reads router.Options: repaired in /repo) *)
   (* icmp6spoof.go:16 *)
   | I6StartHunt => simple [TAcq LIcmp6 MW; TRd FI6HuntList; TWr FI6HuntList; TRel LIcmp6; TSpawn I6SpoofLoop]
   (* icmp6spoof.go:40 *)
@@ -308,9 +307,10 @@ Definition template (o : op) : tmpl op :=
   (* ---- handlers/dns_naming ---- *)
   (* dns.go:104 ProcessDNS *)
   | DnsProcessDNS => simple [TAcq LDns MW; TRd FDnsTable; TWr FDnsTable; TRel LDns]
-  (* mdns.go:314 ProcessMDNS: getMDNSCache DELETES under the read lock (mdns.go:284), putMDNSCache under the write lock *)
+  (* mdns.go ProcessMDNS: getMDNSCache (may delete an expired entry) and putMDNSCache, each under the write lock
+     (getMDNSCache repaired in /repo: was a delete under the READ lock) *)
   | DnsProcessMDNS =>
-      simple [TAcq LDns MR; TRd FDnsMdnsCache; TWr FDnsMdnsCache; TRel LDns; TAcq LDns MW; TWr FDnsMdnsCache; TRel LDns]
+      simple [TAcq LDns MW; TRd FDnsMdnsCache; TWr FDnsMdnsCache; TRel LDns; TAcq LDns MW; TWr FDnsMdnsCache; TRel LDns]
   (* dnstable.go:32 DNSFind / :20 DNSExist *)
   | DnsFind => simple [TAcq LDns MR; TRd FDnsTable; TRel LDns]
   (* dns.go:55 Close: the two maps are set to nil under the handler lock (repaired by /repo 2a21877,
@@ -341,12 +341,51 @@ Definition op_eqb (a b : op) : bool := Nat.eqb (op_idx a) (op_idx b).
 Definition concurrent_allowed (a b : op) : bool :=
   negb (pktloop a && pktloop b) && negb (op_eqb a b && singleton_op a).
 
+(* ---------- guards: which lock protects which field ---------- *)
+Inductive guard :=
+| GLock (c : lockc)              (* reads hold c (any mode), writes hold c exclusively *)
+| GEither (c1 c2 : lockc)        (* writes hold BOTH exclusively, reads hold at least one *)
+| GPkt                           (* touched by the packet-loop goroutine only, no lock *)
+| GNone.                         (* never written by an operation of the pattern (set at construction) *)
+
+Definition field_guard (f : field) : guard :=
+  match f with
+  | FHostTable | FMACTable | FSessClosed | FMacCaptured => GLock LSess
+  | FStats | FI6Repeat | FHeartBeat => GPkt
+  | FHostLastSeen | FHostOnline | FHostDirty | FHostHuntStage | FHostNames | FHostManuf
+  | FMacLastSeen | FMacOnline | FMacIPs | FMacIP4Offer | FMacNames | FMacManuf => GLock LRow
+  | FMacHostList | FMacIsRouter => GEither LSess LRow
+  | FArpHuntList | FArpClosed => GLock LArp
+  | FI6HuntList | FI6Closed | FI6CloseChan | FI6Routers | FI6Router => GLock LIcmp6
+  | FDhcpTable | FDhcpClosed => GLock LDhcp
+  | FDhcpMode | FDnsClosed => GNone
+  | FDnsTable | FDnsMdnsCache => GLock LDns
+  end.
+
+Definition holds_c (c : lockc) (h : list (lockc * mode)) : bool := existsb (fun x => lockc_eqb (fst x) c) h.
+Definition holds_cW (c : lockc) (h : list (lockc * mode)) : bool :=
+  existsb (fun x => lockc_eqb (fst x) c && is_W (snd x)) h.
+
+Definition guard_ok (pkt : bool) (f : field) (w : bool) (h : list (lockc * mode)) : bool :=
+  match field_guard f with
+  | GLock c => if w then holds_cW c h else holds_c c h
+  | GEither c1 c2 => if w then holds_cW c1 h && holds_cW c2 h else holds_c c1 h || holds_c c2 h
+  | GPkt => pkt
+  | GNone => negb w
+  end.
+
 (* goroutines present in every session (started by NewSession) *)
 Definition ambient_ops : list op := [MinuteLoop; NicMonitor].
 
 (* operations started as goroutines by an operation *)
 Definition spawns (o : op) : list op :=
   flat_map (fun a => match a with TSpawn x => [x] | _ => [] end) (flat op (template o)).
+
+(* goroutine census: every `go` statement of the five packages starts one of these (the last one, the router
+   advertisement sender of icmp6 RADVS, is outside the supported pattern and only named) *)
+Definition go_census : list op :=
+  [NicMonitor; MinuteLoop; Purge; PurgeProbe; ArpSpoofLoop; I6SpoofLoop; DhcpSend].
+Definition go_outside_pattern : list string := ["icmp6.radvs"].
 
 (* the races the model predicts for a pair of operations: fields with an
    unprotected conflicting pair of accesses, duplicates removed, in field order *)
